@@ -9,6 +9,7 @@ import (
 	"strconv"
 	"strings"
 
+	"github.com/tobgu/qframe/config/newqf"
 	qsql "github.com/tobgu/qframe/config/sql"
 	"github.com/tobgu/qframe/internal/vx"
 	"github.com/tobgu/qframe/internal/vxsql"
@@ -273,7 +274,18 @@ func VX_C19_precision() {
 		rows = [][]interface{}{{nil}, {1.234}, {nil}, {2.5}}
 	}
 	vxsql.SetResult([]string{"f"}, rows)
-	g := ReadSQL(vxsql.Tx(), qsql.Query("select"), qsql.Precision(2))
+	opts := []qsql.ConfigFunc{qsql.Query("select"), qsql.Precision(2)}
+	if vx.HasParam("coerce") {
+		// the driver delivers the numbers as text, the caller asks for floats
+		for _, row := range rows {
+			if row[0] != nil {
+				row[0] = strconv.FormatFloat(row[0].(float64), 'f', -1, 64)
+			}
+		}
+		opts = append(opts, qsql.Coerce(qsql.CoercePair{Column: "f", Type: qsql.StringToFloat}))
+	}
+	vxsql.SetResult([]string{"f"}, rows)
+	g := ReadSQL(vxsql.Tx(), opts...)
 	vx.Check(g.Err == nil && g.Len() == 4, "ReadSQL with Precision: no error")
 	if g.Err != nil || g.Len() != 4 {
 		return
@@ -284,7 +296,47 @@ func VX_C19_precision() {
 		if row[0] == nil {
 			vx.Check(x != x, "NULL stays NaN when a precision is configured")
 		} else {
-			vx.Check(x == math.Round(row[0].(float64)*100)/100, "value rounded to the configured precision")
+			want, isF := row[0].(float64)
+			if !isF {
+				want, _ = strconv.ParseFloat(row[0].(string), 64)
+			}
+			vx.Check(x == math.Round(want*100)/100, "value rounded to the configured precision")
+		}
+	}
+	vx.Reach("end")
+}
+
+// VX_C19_tosql_big: more rows than any internal batch; nulls in late rows whose predecessors
+// (256, 512 rows earlier) are not null. Concrete: a size boundary the symbolic frames cannot reach.
+func VX_C19_tosql_big() {
+	vxsql.Reset()
+	n := vx.ParamInt("n")
+	ids := make([]int, n)
+	strs := make([]*string, n)
+	for k := range ids {
+		ids[k] = k
+		if k%7 != 3 || k < 200 {
+			s := "v" + strconv.Itoa(k)
+			strs[k] = &s
+		}
+	}
+	f := New(map[string]interface{}{"id": ids, "s": strs}, newqf.ColumnOrder("id", "s"))
+	vx.Check(f.ToSQL(vxsql.Tx(), qsql.Table("t")) == nil, "ToSQL: no error")
+	log := vxsql.ExecLog()
+	vx.Check(len(log) == n, "one INSERT per row")
+	if len(log) != n {
+		return
+	}
+	for r := 0; r < n; r++ {
+		e := log[r]
+		vx.Check(len(e) == 3, "statement and two arguments")
+		id, _ := e[1].(int64)
+		vx.Check(id == int64(r), "rows in frame order")
+		if strs[r] == nil {
+			vx.Check(e[2] == nil, "a null string is sent as NULL")
+		} else {
+			sv, ok := e[2].(string)
+			vx.Check(ok && sv == *strs[r], "string value")
 		}
 	}
 	vx.Reach("end")
